@@ -2,6 +2,7 @@ package main
 
 import (
 	"bytes"
+	"crypto/sha256"
 	"encoding/json"
 	"fmt"
 	"os"
@@ -9,6 +10,7 @@ import (
 	"path/filepath"
 	"sort"
 	"strings"
+	"sync"
 	"time"
 )
 
@@ -29,6 +31,7 @@ type HostSpec struct {
 	Calls      []HostCall `json:"calls"`
 	Out        string     `json:"out,omitempty"`
 	Concurrent bool       `json:"concurrent,omitempty"` // real .so only: threads run freely, no baton
+	Procs      int        `json:"procs,omitempty"`      // GOMAXPROCS of the host process (0 = inherited)
 	Preempt    bool       `json:"preempt,omitempty"`    // threads are goroutines of one bubble, preempted inside the export by the world's scheduler
 }
 
@@ -88,6 +91,29 @@ func runC16(c *Ctx) error {
 		}
 	}
 	c.ev.Fire("multibyte_character_straddles_block_boundary", len(floods)-nBefore)
+	// result-size sweep: well-formed texts whose FORMATTED result is exactly
+	// N-1, N, N+1 bytes for favourite buffer sizes N (chunked writers, pipe
+	// capacity); the formatter keeps a trailing comment verbatim, so the
+	// result length is linear in the comment length
+	nBefore = len(floods)
+	for ni, N := range []int{4096, 8192, 32768, 65536} {
+		body := GenProg(SubSeed(c.Seed, "size-prog", ni)).Render()
+		mk := func(k int) []byte { return []byte(body + "\n// " + strings.Repeat("s", k) + "\n") }
+		r0, err := formatRef(pool, mk(1))
+		if err != nil {
+			return err
+		}
+		if !r0.FormatOK || len(r0.FormatOut) >= N-2 {
+			continue
+		}
+		for _, want := range []int{N - 1, N, N + 1} {
+			in := mk(1 + want - len(r0.FormatOut))
+			if rr, err := formatRef(pool, in); err == nil && rr.FormatOK && len(rr.FormatOut) == want {
+				floods = append(floods, in)
+			}
+		}
+	}
+	c.ev.Fire("formatted_result_exactly_at_buffer_size", len(floods)-nBefore)
 	// the repository's own sample programs, as they are and under other layouts
 	if files, _ := filepath.Glob(filepath.Join(c.sc.Src, "internal", "parser", "testdata", "*.dsl")); len(files) > 0 {
 		sort.Strings(files)
@@ -147,8 +173,26 @@ func runC16(c *Ctx) error {
 	return nil
 }
 
+// formatRef is the reference model of the formatter entry points: the library
+// call on this text as the ONLY thing a fresh process ever does. (A long-lived
+// worker would hand back whatever state the library keeps between calls - a
+// pooled visitor, a memo - as part of the "reference", and could both raise
+// candidates that are the reference's own fault and mask a wrapper that is
+// wrong in the same way.) Results are cached per text for the run: a fresh
+// process is a pure function of the text.
+var fmtRefCache sync.Map
+
 func formatRef(pool *Pool, in []byte) (*Resp, error) {
-	return pool.Do(&Req{Op: "format", DSL: in, Sched: s0()})
+	key := sha256.Sum256(in)
+	if v, ok := fmtRefCache.Load(key); ok {
+		return v.(*Resp), nil
+	}
+	r, err := DoFresh(pool.bin, &Req{Op: "format", DSL: in, Sched: s0()}, 1)
+	if err != nil {
+		return nil, err
+	}
+	fmtRefCache.Store(key, r)
+	return r, nil
 }
 
 func hasWriteOps(o *CLIOutcome, under string) []string {
@@ -478,6 +522,9 @@ func (c *Ctx) candidate16Format(caseIdx int, entry string, v *c16Viol, in []byte
 	if fails(in) == nil {
 		c.ev.Count("unconfirmed_candidates", 1)
 		c.logf("candidate (case %d, %s %s) did not reproduce: not reported", caseIdx, entry, v.class)
+		c.mu.Lock()
+		delete(c.sigSeen, "coarse:"+coarse)
+		c.mu.Unlock()
 		return
 	}
 	small := ddminBytes(in, func(x []byte) bool { return fails(x) != nil }, 150)
@@ -547,7 +594,13 @@ func c16Host(c *Ctx, pool *Pool, i int, n int, realSO bool) error {
 	}
 	seed := SubSeed(c.Seed, tag, i)
 	r := NewRng(seed)
-	spec := &HostSpec{Threads: 2 + r.Intn(3)}
+	spec := &HostSpec{Threads: 1 + r.Intn(4)}
+	if i%4 == 1 {
+		spec.Threads = 1 // the plain editor plug-in: one thread, call after call
+	}
+	if i%3 == 2 {
+		spec.Procs = 1 // every thread shares the one processor's caches
+	}
 	// each simulated host thread has a queue; the scheduler picks whose next call runs
 	var pending []uint64
 	for k := 0; k < n; k++ {
@@ -559,6 +612,11 @@ func c16Host(c *Ctx, pool *Pool, i int, n int, realSO bool) error {
 	for _, s := range pending {
 		// the same token stream comes back under other white-space layouts
 		in := FormatInputLayout(s, r.Intn(4))
+		if len(spec.Calls) > 0 && r.Chance(1, 8) {
+			// the unchanged buffer again, straight away (format on every idle tick)
+			spec.Calls = append(spec.Calls, HostCall{Thread: spec.Calls[len(spec.Calls)-1].Thread, Input: spec.Calls[len(spec.Calls)-1].Input})
+			c.ev.Fire("host_input_resubmitted_immediately", 1)
+		}
 		if len(spec.Calls) > 0 && r.Chance(1, 6) {
 			// an earlier text of this history again, with other white space
 			// AROUND it (line and column of a syntax error move with it)
@@ -757,6 +815,12 @@ func runHost(c *Ctx, spec *HostSpec, realSO bool) ([]hostResult, error) {
 		cmd = exec.Command(c.sc.SimCLI)
 		cmd.Env = append(os.Environ(), "VERIF_HOST="+specPath)
 	}
+	if sp.Procs > 0 {
+		if cmd.Env == nil {
+			cmd.Env = os.Environ()
+		}
+		cmd.Env = append(cmd.Env, fmt.Sprintf("GOMAXPROCS=%d", sp.Procs))
+	}
 	cmd.Dir = dir
 	var se bytes.Buffer
 	cmd.Stderr = &se
@@ -819,7 +883,7 @@ func (c *Ctx) candidate16Host(caseIdx int, spec *HostSpec, k int, v *c16Viol, re
 	defer func() { <-candMu }()
 	// fails: the LAST call of the history shows the same violation class
 	fails := func(calls []HostCall) *c16Viol {
-		sp := &HostSpec{Threads: spec.Threads, Calls: calls}
+		sp := &HostSpec{Threads: spec.Threads, Calls: calls, Procs: spec.Procs}
 		last := calls[len(calls)-1]
 		ref, err := DoFresh(c.sc.Worker, &Req{Op: "format", DSL: last.Input, Sched: s0()}, 1)
 		if err != nil || ref.TimedOut || ref.Crashed != "" || ref.ParsePanic != "" {
@@ -842,6 +906,12 @@ func (c *Ctx) candidate16Host(caseIdx int, spec *HostSpec, k int, v *c16Viol, re
 	if fails(calls) == nil {
 		c.ev.Count("unconfirmed_candidates", 1)
 		c.logf("host candidate (history %d, call %d, %s) did not reproduce: not reported", caseIdx, k, v.class)
+		// a later candidate of the same class (another history, e.g. a
+		// single-threaded one whose hand-overs are fully determined) still
+		// gets its chance
+		c.mu.Lock()
+		delete(c.sigSeen, "coarse:"+coarse)
+		c.mu.Unlock()
 		return
 	}
 	orig := len(calls)
@@ -878,7 +948,7 @@ func (c *Ctx) candidate16Host(caseIdx int, spec *HostSpec, k int, v *c16Viol, re
 	if realSO {
 		kind = "so-c16"
 	}
-	rf := &ReplayFile{Property: "C16", Kind: kind, RunSeed: c.Seed, Case: caseIdx, Host: &HostSpec{Threads: spec.Threads, Calls: calls},
+	rf := &ReplayFile{Property: "C16", Kind: kind, RunSeed: c.Seed, Case: caseIdx, Host: &HostSpec{Threads: spec.Threads, Calls: calls, Procs: spec.Procs},
 		Expect:    map[string]any{"entry": "FormatPacketDslExport", "class": fv.class},
 		Original:  map[string]any{"calls": orig},
 		Minimised: map[string]any{"calls": len(calls), "last_input_bytes": len(smallIn)}}
@@ -888,14 +958,14 @@ func (c *Ctx) candidate16Host(caseIdx int, spec *HostSpec, k int, v *c16Viol, re
 // ---- compile ----
 
 type compileCase struct {
-	targets []string
-	long    bool
-	sub     bool
-	abs     bool
-	dirs    map[string]string // target -> sandbox-relative, clean output dir ("." = the sandbox root)
-	spell   map[string]string // target -> how the directory is spelled on the command line (default: as in dirs)
-	stale   bool
-	nested  bool
+	targets  []string
+	long     bool
+	sub      bool
+	abs      bool
+	dirs     map[string]string // target -> sandbox-relative, clean output dir ("." = the sandbox root)
+	spell    map[string]string // target -> how the directory is spelled on the command line (default: as in dirs)
+	stale    bool
+	nested   bool
 	attached bool // -fin.dsl -gout: short flags with the value attached
 	fifoIn   bool // the DSL arrives through a named pipe
 	eq       bool // --flag=value / -f=value forms
@@ -1102,6 +1172,30 @@ func c16Compile(c *Ctx, pool *Pool, i int, thorough bool) error {
 					cc.stale = false
 					c.ev.Fire("disk0_symlinked_output_dir", 1)
 				}
+			}
+		}
+		// ... or an ANCESTOR of every output directory is a symlink and the
+		// directories themselves do not exist yet (lexical and resolved paths
+		// disagree until they have been created)
+		if links == nil && r.Chance(1, 6) {
+			all := true
+			for _, t := range ts {
+				if !strings.HasPrefix(cc.dirs[t], "out/") {
+					all = false
+				}
+				if _, respelled := cc.spell[t]; respelled {
+					all = false
+				}
+			}
+			if all {
+				links = append(links, DiskEntry{Path: "store/out_real", Kind: "dir"}, DiskEntry{Path: "lnk", Kind: "symlink", Target: "store/out_real"})
+				for _, t := range ts {
+					rest := strings.TrimPrefix(cc.dirs[t], "out/")
+					cc.spell[t] = "lnk/" + rest
+					cc.dirs[t] = "store/out_real/" + rest
+				}
+				cc.stale = false
+				c.ev.Fire("disk0_symlinked_ancestor_missing_leaf", 1)
 			}
 		}
 		if shared {
@@ -1406,6 +1500,9 @@ func (c *Ctx) candidate16Compile(caseIdx int, prog *Prog, cc *compileCase, disk 
 	if nv, _ := fails(prog, cc, true); nv == nil {
 		c.ev.Count("unconfirmed_candidates", 1)
 		c.logf("compile candidate (case %d, %s) did not reproduce: not reported", caseIdx, v.class)
+		c.mu.Lock()
+		delete(c.sigSeen, "coarse:"+coarse)
+		c.mu.Unlock()
 		return
 	}
 	// shrink: targets, stale disk state, program
